@@ -62,8 +62,8 @@ def show(v):
 
 class Decl:
     """kind: int|float|dec|str ; topts: type options as written ; required ; aopts: attribute-level options"""
-    def __init__(self, kind, topts, required, aopts=None, check=None):
-        self.kind = kind; self.topts = dict(topts); self.required = required; self.aopts = dict(aopts or {}); self.check = check
+    def __init__(self, kind, topts, required, aopts=None, check=None, pk=False):
+        self.kind = kind; self.topts = dict(topts); self.required = required or pk; self.aopts = dict(aopts or {}); self.check = check; self.pk = pk
     def py_type(self):
         return {'int': int, 'float': float, 'dec': Decimal, 'str': LongStr if self.topts.get('long') else str}[self.kind]
     def kwargs(self):
@@ -78,14 +78,14 @@ class Decl:
         a += ['%s=%r' % kv for kv in sorted(self.topts.items()) if kv[0] not in ('long', 'max_len_pos')]
         a += ['%s=%r' % kv for kv in sorted(self.aopts.items())]
         if self.check: a.append('py_check=' + self.check)
-        return '%s(%s)' % ('Required' if self.required else 'Optional', ', '.join(a))
+        return '%s(%s)' % ('PrimaryKey' if self.pk else 'Required' if self.required else 'Optional', ', '.join(a))
     # what the declaration means for the attribute layer (computed from the declaration, cross-checked against the real attr)
     def nullable(self):
         n = self.aopts.get('nullable')
         if n is not None: return bool(n)
         return (not self.required) and self.kind != 'str'
     def none_ok(self):
-        return bool(self.aopts.get('volatile') or self.aopts.get('sql_default'))
+        return bool(self.aopts.get('auto') or self.aopts.get('volatile') or self.aopts.get('sql_default'))
     def default(self):
         if 'default' in self.aopts: return self.aopts['default']
         if self.kind == 'str' and not self.required and not self.nullable(): return ''
@@ -193,13 +193,13 @@ def same_value(a, b):
 
 def build(d):
     db = Database()
-    ns = {'x': (Required if d.required else Optional)(d.py_type(), *d.args(), **d.kwargs())}
+    ns = {'x': (PrimaryKey if d.pk else Required if d.required else Optional)(d.py_type(), *d.args(), **d.kwargs())}
     E = core.EntityMeta('E', (db.Entity,), ns)
     db.bind('sqlite', ':memory:')
     db.generate_mapping(create_tables=True)
     return db, E
 
-ENTRIES = ('create', 'assign', 'set', 'get', 'exists', 'filter')
+ENTRIES = ('create', 'assign', 'set', 'get', 'exists', 'filter', 'getitem')
 
 def real_entry(E, base_id, entry, v):
     """-> ('ok', value held / None for lookups, found) | ('error', class name)"""
@@ -221,6 +221,9 @@ def real_entry(E, base_id, entry, v):
                 return ('ok', None, bool(E.exists(x=v)))
             if entry == 'filter':
                 return ('ok', None, len(E.select().filter(x=v)[:]) > 0)
+            if entry == 'getitem':          # E[v]: primary-key lookup (only for PrimaryKey declarations)
+                try: E[v]; return ('ok', None, True)
+                except core.ObjectNotFound: return ('ok', None, False)
             if entry == 'lambda':
                 return ('ok', None, len(select(e for e in E if e.x == v)[:]) > 0)
             raise AssertionError(entry)
@@ -264,6 +267,8 @@ def int_decls(ctx):
         Decl('int', {'min': 0}, True, {'default': -5}), Decl('int', {'max': 0, 'size': 8}, False, {'default': 1}),
         Decl('int', {'size': 8, 'unsigned': True}, True, {'default': '200'}),
         Decl('int', {'min': 5, 'max': 3}, True), Decl('int', {'min': 0, 'max': 0}, True),
+        Decl('int', {'min': 0}, True, pk=True), Decl('int', {'size': 8}, True, pk=True), Decl('int', {'size': 16, 'unsigned': True, 'max': 0}, True, pk=True),
+        Decl('int', {}, True, {'auto': True}, pk=True), Decl('int', {'min': -3, 'max': 9}, True, check='even', pk=True),
     ]
     return out, extra
 
@@ -317,7 +322,7 @@ def dec_decls(ctx):
         out.append((core_case, Decl('dec', t, True)))
     extra = [Decl('dec', {'min': 0}, False), Decl('dec', {'max': 0, 'precision': 8, 'scale': 3}, False),
              Decl('dec', {'min': 0}, True, check='nonneg'), Decl('dec', {'min': 0}, False, {'default': Decimal('1.5')}),
-             Decl('dec', {'min': 0}, True, {'default': -1})]
+             Decl('dec', {'min': 0}, True, {'default': -1}), Decl('dec', {'min': 0, 'max': 10}, True, pk=True)]
     return out, extra
 
 def dec_candidates(d):
@@ -352,7 +357,8 @@ def str_decls(ctx):
              Decl('str', {'max_len': 5}, True, {'sql_default': "'q'"}), Decl('str', {'max_len': 5}, False, {'volatile': True}),
              Decl('str', {'max_len': 5}, True, check='short'), Decl('str', {}, False, check='short'), Decl('str', {'autostrip': False}, True, check='never'),
              Decl('str', {'max_len': 2}, False, {'default': ' ab '}), Decl('str', {'max_len': 2}, True, {'default': 'abc'}),
-             Decl('str', {'max_len': 2, 'autostrip': False}, False, {'default': ' a'})]
+             Decl('str', {'max_len': 2, 'autostrip': False}, False, {'default': ' a'}),
+             Decl('str', {'max_len_pos': 5}, True, pk=True), Decl('str', {'max_len': 3, 'autostrip': False}, True, pk=True)]
     return out, extra
 
 def str_candidates(d, rng):
@@ -472,7 +478,7 @@ def run_decl(ctx, d, cands, work):
         if s[0] == 'ok' and storable(d, s[1]) and not isinstance(s[1], bool):
             try:
                 with db_session:
-                    o = E(x=w); commit(); base_id = o.id; base_val = s[1]
+                    o = E(x=w); commit(); base_id = o._pkval_; base_val = s[1]
                 break
             except Exception:
                 with db_session: rollback()
@@ -493,7 +499,8 @@ def run_decl(ctx, d, cands, work):
             work.meta.append(('gen-validate', d, text, realv, v))
         for entry in ENTRIES:
             if entry != 'create' and (v is DEFAULT or base_id is None): continue
-            if entry in ('get', 'exists', 'filter') and exp[0] == 'ok' and not storable(d, exp[1]):
+            if entry == 'getitem' and (not d.pk or v is None or isinstance(v, tuple)): continue
+            if entry in ('get', 'exists', 'filter', 'getitem') and exp[0] == 'ok' and not storable(d, exp[1]):
                 ctx.count('lookup-skipped-unstorable:' + kind); continue
             got = real_entry(E, base_id, entry, v)
             outcomes[entry] = got
@@ -502,17 +509,28 @@ def run_decl(ctx, d, cands, work):
             if exp[0] == 'reject': ctx.count('reject-reason:%s:%s' % (kind, exp[1].split(' (')[0]))
             # ---- property oracle
             key = None
-            if got[0] == 'ok' and exp[0] == 'reject':
+            pk_change = d.pk and entry in ('assign', 'set') and exp[0] == 'ok' and not (exp[1] == base_val)
+            if pk_change:
+                # a valid but different key: refused because a primary key cannot change (TypeError), not because of a constraint
+                ctx.count('pk-change-refused')
+                if not (got[0] == 'error' and got[1] == 'TypeError'):
+                    what = 'assigning a different valid value to a primary key is not refused with "Cannot change value of primary key"'
+                    key = 'pk-change:%s:%s:%s' % (text, show(v), entry)
+            elif got[0] == 'ok' and exp[0] == 'reject':
                 what = 'a value that violates the declared constraints (%s) is accepted' % exp[1]
                 nanb = kind == 'float' and exp[1] in ('below min', 'above max') and isinstance(_as_float(w), float) and _as_float(w) != _as_float(w)
                 key = 'float-nan-passes-bounds' if nanb else 'accepted-invalid:%s:%s:%s' % (text, show(v), entry)
             elif got[0] == 'error' and exp[0] == 'ok':
                 what = 'a value that satisfies every declared constraint is rejected (%s)' % got[1]
                 key = 'rejected-valid:%s:%s:%s' % (text, show(v), entry)
+            elif got[0] == 'ok' and d.pk and entry in ('assign', 'set'):
+                if not (type(got[1]) is type(base_val) and got[1] == base_val):        # an equal key: `return` — the object keeps the key it has
+                    what = 'assigning its own key to a primary key changed the value the object holds'
+                    key = 'pk-same-key:%s:%s:%s' % (text, show(v), entry)
             elif got[0] == 'ok' and entry in ('create', 'assign', 'set') and not same_value(got[1], exp[1]):
                 what = 'the accepted value is not the documented normalisation of the candidate'
                 key = 'wrong-normalisation:%s:%s:%s' % (text, show(v), entry)
-            elif got[0] == 'ok' and entry in ('get', 'exists', 'filter') and kind in ('int', 'str') and exp[1] is not None:
+            elif got[0] == 'ok' and entry in ('get', 'exists', 'filter', 'getitem') and kind in ('int', 'str') and exp[1] is not None:
                 found_exp = (exp[1] == base_val)
                 if got[2] != found_exp:
                     what = 'lookup by an accepted value does not find exactly the rows holding the normalised value'
@@ -521,11 +539,13 @@ def run_decl(ctx, d, cands, work):
                 ctx.violation(what, {'declaration': text, 'value': show(v), 'entry_point': entry, 'stored_base_value': show(base_val)},
                               observed=list(map(show, got)), expected=[exp[0], show(exp[1])], key=key)
             # ---- model request
-            work.reqs.append(dict(op='validate', type=mt, attr=d.model_attr(dflt_norm), value=enc(v), check=chk,
-                                  entry={'create': 'create', 'assign': 'assign', 'set': 'set'}.get(entry, 'lookup'), **aux))
+            mentry = {'create': 'create', 'assign': 'assign', 'set': 'set'}.get(entry, 'lookup')
+            req = dict(op='validate', type=mt, attr=d.model_attr(dflt_norm), value=enc(v), check=chk, entry=mentry, **aux)
+            if d.pk and entry in ('assign', 'set'): req['entry'] = 'assign_pk'; req['old'] = enc(base_val)
+            work.reqs.append(req)
             work.meta.append(('value', d, text, (v, entry), got))
         # the four entry points agree with each other (the property's last sentence), independent of spec and model
-        acc = {e: o[0] for e, o in outcomes.items()}
+        acc = {e: o[0] for e, o in outcomes.items() if not (d.pk and e in ('assign', 'set') and exp[0] == 'ok' and not (exp[1] == base_val))}
         if len(set(acc.values())) > 1:
             ctx.violation('entry points disagree on whether the value is accepted', {'declaration': text, 'value': show(v), 'outcomes': {e: list(map(show, o)) for e, o in outcomes.items()}},
                           observed=acc, expected='the same outcome everywhere', key='entry-points-disagree:%s:%s' % (text, show(v)))
@@ -536,7 +556,43 @@ def run_decl(ctx, d, cands, work):
             if got[0] != 'ok' or got[2] != outcomes['exists'][2]:
                 ctx.violation('select(lambda) with the normalised value and the keyword lookup find different rows', {'declaration': text, 'value': show(v)},
                               observed=list(map(show, got)), expected=list(map(show, outcomes['exists'])), key='lambda-lookup:%s:%s' % (text, show(v)))
+    if kind in ('int', 'str') and not d.pk: from_db_tie(ctx, d, db, E, work, mt, dflt_norm)
     db.disconnect()
+
+def from_db_tie(ctx, d, db, E, work, mt, dflt_norm):
+    """rows written behind Pony's back that VIOLATE the declaration: loading is not validation (model: validateDb) — what the real
+    attribute returns is compared with the model; nothing is claimed by the property about such rows"""
+    t = d.topts
+    table = E._table_
+    if d.kind == 'int':
+        lo, hi = int_range(t.get('size'), t.get('unsigned', False))
+        raws = [0, -5, 7] + [b for b in ((lo - 1) if lo is not None else None, (hi + 1) if hi is not None else None,
+                                          (t['min'] - 1) if t.get('min') is not None else None, (t['max'] + 1) if t.get('max') is not None else None) if b is not None and -I64 <= b < I64]
+    else:
+        ml = t.get('max_len_pos', t.get('max_len')) or 3
+        raws = ['ok', '', '  padded  ', 'x' * (abs(ml) + 5), 'a\x00b']
+    raws = raws + [None]
+    for raw in raws:
+        try:
+            with db_session:
+                db.execute('INSERT INTO "%s" ("x") VALUES ($raw)' % table)
+                pk = db.get('SELECT max("id") FROM "%s"' % table)
+                commit()
+        except Exception as e:
+            with db_session: rollback()
+            ctx.count('from-db:raw-insert-refused:%s' % type(e).__name__); continue
+        import warnings
+        with warnings.catch_warnings():
+            warnings.simplefilter('ignore')
+            with db_session:
+                try: got = ('ok', E[pk].x, None)
+                except Exception as e: got = ('error', type(e).__name__)
+        ctx.case([d.text(), 'load', show(raw)], kind='entry:%s:load' % d.kind)
+        ctx.count('from-db:%s' % ('loaded' if got[0] == 'ok' else got[1]))
+        if got[0] == 'ok' and raw is not None and spec_convert(d, raw)[0] != 'ok': ctx.count('from-db:loaded-a-value-the-declaration-forbids')
+        aux = aux_for(d, raw)
+        work.reqs.append(dict(op='validate', type=mt, attr=d.model_attr(dflt_norm), value=enc(raw), check=True, entry='load', **aux))
+        work.meta.append(('value', d, d.text(), (raw, 'create'), got))
 
 def _as_float(w):
     try: return float(w)
